@@ -13,7 +13,7 @@ use proc_macro2::TokenStream;
 use quote::{format_ident, quote};
 
 use super::{
-    common::{safe_ident, CodegenGrammar, CodegenRule, CodegenSettings},
+    common::{check_ident, check_path, safe_ident, CodegenGrammar, CodegenRule, CodegenSettings},
     include_rule::check_include_cycles,
 };
 
@@ -24,7 +24,16 @@ impl CodegenGrammar for Grammar {
         let mut all_impls = TokenStream::new();
         let mut cache_entries = TokenStream::new();
         check_include_cycles(self)?;
+        for derive in &settings.derives {
+            check_path("Derive", derive.split("::"))?;
+        }
         for rule_entry in &self.rules {
+            let rule_name = match rule_entry {
+                Grammar_rules::Rule(rule) => &rule.name,
+                Grammar_rules::CharRule(rule) => &rule.name,
+                Grammar_rules::ExternRule(rule) => &rule.name,
+            };
+            check_ident("Rule name", rule_name)?;
             match rule_entry {
                 Grammar_rules::Rule(rule) => {
                     let flags = rule.flags();
